@@ -30,7 +30,7 @@ def make_poses(r, H, W, n_nodes, n_animals, body=22.0, missing_p=0.0, min_sep_fa
             if m.sum() > n_nodes - 2:
                 m[:] = False
             p[m] = np.nan
-        poses.append(np.round(p * 4) / 4)
+        poses.append(p + 0.0137)  # general position: no coordinate sits exactly on a cell boundary (a tie is a plateau, not a strict maximum)
     return poses
 
 
